@@ -13,6 +13,7 @@ def scenario(rng, i):
     cur = copy.deepcopy(tree)
     steps = []
     altered = {}
+    sealed = set()                 # files some generation has recorded: only those are altered (and restored) later
     for k in range(rng.choice([1, 2, 3, 4, 6])):
         st = {"op": "create", "fmts": gen.gen_fmts(rng, kmax=4)}
         files = gen.all_files(cur)
@@ -22,9 +23,10 @@ def scenario(rng, i):
         elif r < 0.4:
             st["n"] = True
         steps.append(st)
+        sealed |= set(st["sf"]) if st.get("sf") else set(files)
         r = rng.random()
-        if r < 0.3 and not altered:
-            p = rng.choice(files)
+        if r < 0.3 and not altered and sealed:
+            p = rng.choice(sorted(sealed))
             altered[p] = gen._node(cur, p)["f"]
             steps.append({"op": "set", "path": p, "data": gen.gen_content(rng, distinct) or "ee"})
             cur = world.tree_apply(cur, steps[-1])
